@@ -180,6 +180,13 @@ def _run_live(case, top, stats, log):
     if any(e[0] == "DEADLOCK" for e in r.events):
         return {"kind": "deadlock", "detail": "downloader starved"}
     if r.rc != 0:
+        # forced-fallback forces the download of every dependency: it legitimately fails when the
+        # archive cannot have the artifact (upstream moved to a commit nobody uploaded, or the
+        # artifact of lib was removed)
+        if case["mode"] == "forced-fallback" and (case["move"] != "never" or "lib" in case["drop"]) \
+                and "ownload" in r.output:
+            stats.inc("probe_forced_download_legitimately_failed")
+            return None
         return {"kind": "download-build-failed", "detail": "live scenario %s: rc=%d %s" % (log[-1], r.rc, r.output[-900:])}
     # local clean build at the upstream state that the downloader ended up with
     pc = os.path.join(top, "clean", "proj")
